@@ -53,7 +53,7 @@ func cmdC17X(args []string) {
 	sizes := []int{0, 1, 2, 17, 326, 327, 328, 1000, 100000, *maxSize}
 	kinds := []string{"bytes", "letters", "elements", "empties", "lines", "emptylines", "ows"}
 	fields := []string{hOrigin, hACRM, hACRH, hACRPN}
-	calls := 0
+	calls, extreme := 0, 0
 	for ci, s := range sems {
 		cfg := s.spell(rng)
 		m, err := cors.NewMiddleware(*cfg)
@@ -82,6 +82,9 @@ func cmdC17X(args []string) {
 								h.ServeHTTP(newRec(), newReq(method, hd))
 							}()
 							calls++
+							if n == 0 || n >= 1000 {
+								extreme++
+							}
 						}
 					}
 				}
@@ -137,7 +140,7 @@ func cmdC17X(args []string) {
 		cfgCalls++
 	}
 	t.emit(map[string]any{"ev": "Done", "calls": calls, "cfgcalls": cfgCalls})
-	writeJSON(*out, map[string]any{"request_calls": calls, "config_calls": cfgCalls, "events": t.n})
+	writeJSON(*out, map[string]any{"request_calls": calls, "extreme_requests": extreme, "config_calls": cfgCalls, "events": t.n})
 }
 
 // ---------------------------------------------------------------- C18: allocations per request
